@@ -83,3 +83,48 @@ package keeper
 //@ ensures [reporter_vote_excludes_stake_of_selectors_that_voted_before] err == nil && called(GetReporterTokensAtBlock) ==> power == ret(GetReporterTokensAtBlock, 0) - get0(old(dispute.ReportersWithDelegatorsVotedBefore), pair(ret(Delegation, 0).Reporter, id))
 //@ ensures [selector_voting_first_is_accumulated_for_its_reporter] err == nil && called(GetDelegatorTokensAtBlock) && !old(has(dispute.Voter, pair(id, ret(Delegation, 0).Reporter))) ==> dispute.ReportersWithDelegatorsVotedBefore[pair(ret(Delegation, 0).Reporter, id)] == get0(old(dispute.ReportersWithDelegatorsVotedBefore), pair(ret(Delegation, 0).Reporter, id)) + ret(GetDelegatorTokensAtBlock, 0) && power == ret(GetDelegatorTokensAtBlock, 0)
 //@ ensures [selector_voting_after_reporter_is_taken_out_of_reporter_power] err == nil && called(GetDelegatorTokensAtBlock) && old(has(dispute.Voter, pair(id, ret(Delegation, 0).Reporter))) ==> dispute.Voter[pair(id, ret(Delegation, 0).Reporter)].ReporterPower == old(dispute.Voter[pair(id, ret(Delegation, 0).Reporter)].ReporterPower) - ret(GetDelegatorTokensAtBlock, 0) && power == ret(GetDelegatorTokensAtBlock, 0)
+
+// ---- settlement (C13, C03) ----
+// Amounts with 12 decimals ("fixed12") are loya * 10^6; the part below one loya is the remainder that goes to Dust.
+
+//@ func (k Keeper).RefundDisputeFee(ctx, feePayer, payerInfo, totalFeesPaid, feeMinusBurn, hashId) (rem, err)
+//@ requires [fees_positive] totalFeesPaid > 0 && payerInfo.Amount >= 0 && feeMinusBurn >= 0
+//@ requires [payer_is_not_the_dispute_account] acc(feePayer) != module("dispute")
+//@ modifies bank.bal, reporter.*, staking.*
+//@ ensures [remainder_below_one_loya] 0 <= rem && rem < 1000000
+//@ ensures [paid_plus_remainder_is_the_pro_rata_share] (payerInfo.FromBond ? arg(ReturnFeetoStake, remainingAmt) : old(bank.bal[module("dispute")]) - bank.bal[module("dispute")]) * 1000000 + rem == dectrunc(decquo(decmul(decmul(payerInfo.Amount * 1000000000000000000, feeMinusBurn * 1000000000000000000), 1000000 * 1000000000000000000), totalFeesPaid * 1000000000000000000)) || err != nil
+//@ ensures [paid_from_balance_goes_to_the_payer] err == nil && !payerInfo.FromBond ==> bank.bal[acc(feePayer)] - old(bank.bal[acc(feePayer)]) == old(bank.bal[module("dispute")]) - bank.bal[module("dispute")]
+//@ ensures [supply_unchanged] bank.supply == old(bank.supply)
+
+//@ func (k msgServer).WithdrawFeeRefund(ctx, msg) (resp, err)
+//@ requires [msg_present] msg != nil
+//@ requires [dust_is_sub_unit] has(dispute.Dust) ==> 0 <= dispute.Dust && dispute.Dust < 1000000
+//@ requires [payer_is_not_the_dispute_account] addrstr(msg.PayerAddress) != module("dispute")
+//@ requires [dispute_record_well_formed] has(dispute.Disputes, msg.Id) ==> dispute.Disputes[msg.Id].FeeTotal > 0 && dispute.Disputes[msg.Id].SlashAmount >= dispute.Disputes[msg.Id].BurnAmount && dispute.Disputes[msg.Id].BurnAmount >= 0
+//@ requires [payer_record_well_formed] has(dispute.DisputeFeePayer, pair(msg.Id, accbytes(msg.PayerAddress))) ==> dispute.DisputeFeePayer[pair(msg.Id, accbytes(msg.PayerAddress))].Amount >= 0
+//@ modifies bank.bal, bank.supply, dispute.Dust, dispute.DisputeFeePayer, reporter.*, staking.*
+//@ ensures [whole_units_of_dust_are_burned_the_rest_is_carried] err == nil ==> dispute.Dust + 1000000 * (old(bank.supply) - bank.supply) == old(dispute.Dust) + (called(RefundDisputeFee) ? ret(RefundDisputeFee, 0) : 0) + (called(RewardReporterBondToFeePayers) ? ret(RewardReporterBondToFeePayers, 0) : 0)
+//@ ensures [dust_stays_below_one_loya] err == nil && (called(RefundDisputeFee) ==> 0 <= ret(RefundDisputeFee, 0)) && (called(RewardReporterBondToFeePayers) ==> 0 <= ret(RewardReporterBondToFeePayers, 0)) ==> 0 <= dispute.Dust && dispute.Dust < 1000000
+//@ ensures [each_payer_claims_once] err == nil ==> !has(dispute.DisputeFeePayer, pair(msg.Id, accbytes(msg.PayerAddress))) && old(has(dispute.DisputeFeePayer, pair(msg.Id, accbytes(msg.PayerAddress))))
+//@ ensures [only_after_execution] err == nil && old(dispute.Disputes[msg.Id].DisputeStatus) != types.Failed ==> old(dispute.Votes[msg.Id].Executed)
+//@ ensures [supply_only_shrinks_by_burnt_dust] bank.supply <= old(bank.supply)
+
+//@ func (k Keeper).ReturnSlashedTokens(ctx, dispute) (err)
+//@ modifies bank.bal, reporter.*, staking.*
+//@ ensures [dispute_account_pays_the_slash_amount_to_the_bonded_pool] err == nil && module("dispute") != module("bonded_tokens_pool") && module("dispute") != module("not_bonded_tokens_pool") ==> bank.bal[module("dispute")] == old(bank.bal[module("dispute")]) - dispute.SlashAmount
+//@ ensures [supply_unchanged] bank.supply == old(bank.supply)
+//@ ensures [same_amount_returned_to_the_stake_ledger] err == nil ==> arg(ReturnSlashedTokens, amt) == dispute.SlashAmount && arg(ReturnSlashedTokens, hashId) == dispute.HashId
+
+//@ func (k Keeper).ExecuteVote(ctx, id) (err)
+//@ requires [escrow_distinct_from_pools] module("dispute") != module("bonded_tokens_pool") && module("dispute") != module("not_bonded_tokens_pool")
+//@ requires [amounts_non_negative] has(dispute.Disputes, id) ==> dispute.Disputes[id].BurnAmount >= 0 && dispute.Disputes[id].SlashAmount >= dispute.Disputes[id].BurnAmount
+//@ requires [vote_result_is_a_defined_value] has(dispute.Votes, id) ==> 0 <= dispute.Votes[id].VoteResult && dispute.Votes[id].VoteResult <= 6
+//@ modifies bank.bal, bank.supply, dispute.Disputes, dispute.Votes, dispute.BlockInfo, reporter.*, staking.*
+//@ ensures [executes_exactly_once] old(has(dispute.Votes, id)) && old(dispute.Votes[id].Executed) ==> err != nil
+//@ ensures [marks_executed] err == nil ==> dispute.Votes[id].Executed && !dispute.Disputes[id].PendingExecution
+//@ ensures [only_resolved_and_tallied_disputes] err == nil ==> dispute.Disputes[id].DisputeStatus == types.Resolved && old(dispute.Votes[id].VoteResult) != types.VoteResult_NO_TALLY
+//@ ensures [burns_half_or_all_of_the_burn_amount] err == nil ==> old(bank.supply) - bank.supply == (ret(GetSumOfAllGroupVotesAllRounds, 0) == 0 ? old(dispute.Disputes[id].BurnAmount) : dectrunc(decquo(old(dispute.Disputes[id].BurnAmount) * 1000000000000000000, 2000000000000000000)))
+//@ ensures [voter_pot_is_the_other_half] err == nil ==> dispute.Disputes[id].VoterReward == (ret(GetSumOfAllGroupVotesAllRounds, 0) == 0 ? 0 : dectrunc(decquo(old(dispute.Disputes[id].BurnAmount) * 1000000000000000000, 2000000000000000000)))
+//@ ensures [stake_goes_back_unless_the_dispute_is_upheld] err == nil && (old(dispute.Votes[id].VoteResult) == types.VoteResult_SUPPORT || old(dispute.Votes[id].VoteResult) == types.VoteResult_NO_QUORUM_MAJORITY_SUPPORT) ==> !called(ReturnSlashedTokens)
+//@ ensures [reporter_gets_stake_and_fee_when_vindicated] err == nil && (old(dispute.Votes[id].VoteResult) == types.VoteResult_AGAINST || old(dispute.Votes[id].VoteResult) == types.VoteResult_NO_QUORUM_MAJORITY_AGAINST) ==> called(ReturnSlashedTokens) && arg(ReturnSlashedTokens, dispute).SlashAmount == 2 * old(dispute.Disputes[id].SlashAmount) - old(dispute.Disputes[id].BurnAmount)
+//@ ensures [reporter_gets_stake_back_when_invalid] err == nil && (old(dispute.Votes[id].VoteResult) == types.VoteResult_INVALID || old(dispute.Votes[id].VoteResult) == types.VoteResult_NO_QUORUM_MAJORITY_INVALID) ==> called(ReturnSlashedTokens) && arg(ReturnSlashedTokens, dispute).SlashAmount == old(dispute.Disputes[id].SlashAmount)
